@@ -210,6 +210,7 @@ type Gen struct {
 	Modalities []string
 	// knobs
 	PErrExpr    float64 // probability of an ill-typed predicate
+	PErrOther   float64 // probability of an ill-typed activation condition / assignment (aborts the audition)
 	MaxMembers  int
 	WithCollect bool
 	WithInterp  bool
@@ -364,6 +365,9 @@ func (g *Gen) Config() *Config {
 		default:
 			m.CondKind = "other"
 			m.Cond = g.boolExpr(c, 2, true)
+			if g.R.Float64() < g.PErrOther {
+				m.Cond = g.illTyped(c)
+			}
 		}
 		if m.Cond != nil {
 			kw := g.pick([]string{"while", "when"})
@@ -385,6 +389,9 @@ func (g *Gen) Config() *Config {
 					as = Assign{Target: tgt, Mode: "single", E: g.boolExpr(c, 1, g.R.Intn(3) == 0), Typ: TBool}
 				} else {
 					as = Assign{Target: tgt, Mode: "single", E: g.numExpr(c, 2, g.R.Intn(3) == 0), Typ: TNum}
+					if g.R.Float64() < g.PErrOther {
+						as.E = Bin("-", g.illTyped(c), Num(1))
+					}
 				}
 				m.ClauseOrdr = append(m.ClauseOrdr, fmt.Sprintf("%s computes %s as %s", m.Name, tgt, as.E.Src()))
 			} else {
